@@ -132,8 +132,11 @@ var probeVersions = []struct {
 func probeHistory(rng *hlib.Rand, p *probeProc, probe *pkgData, idx int) *histOut {
 	h := &histOut{counts: map[string]int{}}
 	ms := probe.methods
+	// a third of the histories concentrate on the I/O side: valid initialize first, mostly the bytecode
+	// interpreter and the two reader/writer coroutines, re-initialise as soon as the object is disabled
+	focus := rng.Chance(1, 3)
 	fill := 0
-	if rng.Chance(1, 3) {
+	if rng.Chance(1, 3) && !focus {
 		fill = []int{0xAA, 0x01, 0xFF, 0x3C, 0x71}[rng.Intn(5)]
 	}
 	ans := p.ask(fmt.Sprintf("new %d", fill))
@@ -148,9 +151,11 @@ func probeHistory(rng *hlib.Rand, p *probeProc, probe *pkgData, idx int) *histOu
 	n := rng.Range(4, 30)
 	var sigb strings.Builder
 	srcMode, dstMode := 1, 1
+	srcDesc, dstDesc := "", ""
+	lastProg := ""
 	setSrc := func() {
 		srcMode = 1
-		if rng.Chance(1, 8) {
+		if rng.Chance(1, 8) && !(focus && rng.Chance(4, 5)) {
 			srcMode = 0
 		} else if rng.Chance(1, 10) {
 			srcMode = 2
@@ -171,13 +176,20 @@ func probeHistory(rng *hlib.Rand, p *probeProc, probe *pkgData, idx int) *histOu
 		if rng.Chance(1, 3) {
 			closed = 1
 		}
+		if srcMode != 1 {
+			data, ri, wi = nil, 0, 0
+			if srcMode == 0 {
+				closed = 0
+			}
+		}
 		cmd := fmt.Sprintf("src %d %s %d %d %d", srcMode, hlib.Hex(data), ri, wi, closed)
+		srcDesc = fmt.Sprintf("%d,%s,%d,%d,%d", srcMode, hlib.Hex(data), ri, wi, closed)
 		replay = append(replay, cmd)
 		p.ask(cmd)
 	}
 	setDst := func() {
 		dstMode = 1
-		if rng.Chance(1, 8) {
+		if rng.Chance(1, 8) && !(focus && rng.Chance(4, 5)) {
 			dstMode = 0
 		} else if rng.Chance(1, 10) {
 			dstMode = 2
@@ -196,21 +208,34 @@ func probeHistory(rng *hlib.Rand, p *probeProc, probe *pkgData, idx int) *histOu
 		if rng.Chance(1, 6) {
 			closed = 1
 		}
+		if dstMode != 1 {
+			data, ri, wi = nil, 0, 0
+			if dstMode == 0 {
+				closed = 0
+			}
+		}
 		cmd := fmt.Sprintf("dst %d %s %d %d %d", dstMode, hlib.Hex(data), ri, wi, closed)
+		dstDesc = fmt.Sprintf("%d,%s,%d,%d,%d", dstMode, hlib.Hex(data), ri, wi, closed)
 		replay = append(replay, cmd)
 		p.ask(cmd)
 	}
 	setSrc()
 	setDst()
+	lastMagic := ""
 	for k := 0; k < n; k++ {
-		if rng.Chance(1, 6) || (k == 0 && rng.Chance(2, 3)) {
+		needInit := focus && (k == 0 || lastMagic != "magic")
+		if needInit || (!focus && (rng.Chance(1, 6) || (k == 0 && rng.Chance(2, 3)))) {
 			// initialize
 			selfnull := 0
 			sz := sizeof
 			ver := probeVersions[rng.Intn(len(probeVersions))]
 			opts := []int{0, 0, 0, 1, 2, 3}[rng.Intn(6)]
 			kind := "ok"
-			switch rng.Intn(10) {
+			variant := rng.Intn(10)
+			if needInit {
+				variant, opts, ver = 9, []int{0, 2}[rng.Intn(2)], probeVersions[0]
+			}
+			switch variant {
 			case 0:
 				sz = sizeof - 1
 				kind = "sizeof"
@@ -256,6 +281,7 @@ func probeHistory(rng *hlib.Rand, p *probeProc, probe *pkgData, idx int) *histOu
 				h.fails = append(h.fails, hlib.Failure{Key: "init-rejects:probe:valid-rejected", Desc: "a valid initialize returned " + status, Replay: strings.Join(replay, "\n")})
 			}
 			st.onInit(status)
+			lastMagic = magicClass(f[1])
 			fmt.Fprintf(&sigb, "I%s,%s,%s;", shortStatus(status), magicClass(f[1]), f[2])
 			if status != "ok" {
 				h.nontriv = true
@@ -271,6 +297,17 @@ func probeHistory(rng *hlib.Rand, p *probeProc, probe *pkgData, idx int) *histOu
 				m = ms[mi]
 			}
 		}
+		if focus {
+			want := "vm"
+			if rng.Chance(1, 4) {
+				want = []string{"co_a", "co_b"}[rng.Intn(2)]
+			}
+			for j, x := range ms {
+				if x.Name == want {
+					mi, m = j, x
+				}
+			}
+		}
 		if rng.Chance(1, 4) {
 			setSrc()
 		}
@@ -278,7 +315,7 @@ func probeHistory(rng *hlib.Rand, p *probeProc, probe *pkgData, idx int) *histOu
 			setDst()
 		}
 		selfnull := 0
-		if rng.Chance(1, 30) {
+		if rng.Chance(1, 30) && !focus {
 			selfnull = 1
 		}
 		c := []int{0, 0, 0, 1, 2, 3, 3, 4, 5, 6, 7, 8, 9, 2, 100, 101, 1000}[rng.Intn(17)]
@@ -288,12 +325,18 @@ func probeHistory(rng *hlib.Rand, p *probeProc, probe *pkgData, idx int) *histOu
 		}
 		prog := ""
 		if m.Name == "vm" {
-			pl := rng.Intn(12)
-			pb := make([]byte, pl)
-			for i := range pb {
-				pb[i] = []byte{0, 1, 2, 3, 3, 4, 4, 4, 5, 6, 7, 7, 7, 9, 10, 11, 12, 13, 14, 14, 15}[rng.Intn(21)]
+			// fresh buffers before every vm call, so that the op line describes them completely
+			setSrc()
+			setDst()
+			if lastProg == "" || rng.Chance(1, 4) {
+				pl := rng.Intn(12)
+				pb := make([]byte, pl)
+				for i := range pb {
+					pb[i] = []byte{0, 1, 2, 3, 3, 4, 4, 4, 5, 5, 6, 7, 7, 7, 9, 9, 10, 11, 11, 12, 13, 13, 14, 14, 15}[rng.Intn(25)]
+				}
+				lastProg = hlib.Hex(pb)
 			}
-			prog = " " + hlib.Hex(pb)
+			prog = " " + lastProg
 		}
 		// model arguments
 		var av []string
@@ -353,7 +396,29 @@ func probeHistory(rng *hlib.Rand, p *probeProc, probe *pkgData, idx int) *histOu
 		}
 		status := f[0]
 		hint := status
-		h.op(fmt.Sprintf("call %d %d %s %s", mi, selfnull, avs, hint), fmt.Sprintf("%s %s %s", status, magicClass(f[1]), f[2]))
+		lastMagic = magicClass(f[1])
+		if m.Name == "vm" {
+			// exact prediction of the body by Model/ProbeVM.lean: buffers, pc, resume point
+			var pcs, ps, scr string
+			for _, fld := range f[5:] {
+				switch {
+				case strings.HasPrefix(fld, "pc="):
+					pcs = fld
+				case strings.HasPrefix(fld, "p="):
+					ps = fld
+				case strings.HasPrefix(fld, "scratch="):
+					scr = fld
+				}
+			}
+			if ps != "p=3" && ps != "p=4" {
+				scr = "scratch=0"
+			}
+			h.op(fmt.Sprintf("vm %d %d %s %s %s", mi, selfnull, srcDesc, dstDesc, strings.TrimSpace(prog)),
+				fmt.Sprintf("%s %s %s %s %s %s %s %s", status, magicClass(f[1]), f[2], f[3], f[4], pcs, ps, scr))
+			h.count("probe:vm-exact")
+		} else {
+			h.op(fmt.Sprintf("call %d %d %s %s", mi, selfnull, avs, hint), fmt.Sprintf("%s %s %s", status, magicClass(f[1]), f[2]))
+		}
 		h.count("probe:" + m.Name + ":" + shortStatus(status))
 		fmt.Fprintf(&sigb, "%d%s,%s,%s;", mi, shortStatus(status), magicClass(f[1]), f[2])
 		if status != "ok" && status != "v" && status != "-" {
